@@ -64,6 +64,28 @@ Example c10_end_to_end_nonvacuous_suspend :
   state TP nat s3 = Idle.
 Proof. vm_compute. repeat split; try (eexists; reflexivity). exists KSleep. left; reflexivity. Qed.
 
+(* ex_c10_pa : engine_cases_ctl.c10_cases, tag "c10 fin clear@3 pause+abort@6" *)
+Definition ex_c10_pa_tapes : list (nat * list tout) := [(0, [TY {| mid := (Some 0); mcmd := CStage; mobj := (Some 0); mrun := 0 |}; TY {| mid := (Some 1); mcmd := COpenRun; mobj := None; mrun := 0 |}; TY {| mid := (Some 2); mcmd := CCheckpoint; mobj := None; mrun := 0 |}; TY {| mid := (Some 3); mcmd := CClearCheckpoint; mobj := None; mrun := 0 |}; TY {| mid := (Some 4); mcmd := (CSet 1); mobj := (Some 1); mrun := 0 |}; TY {| mid := (Some 5); mcmd := CNull; mobj := None; mrun := 0 |}; TY {| mid := (Some 6); mcmd := (CCloseRun None RsEmpty); mobj := None; mrun := 0 |}; TY {| mid := (Some 7); mcmd := CUnstage; mobj := (Some 0); mrun := 0 |}; TE EFailedPause])].
+Definition ex_c10_pa_ledger : list devres := [DUnit; DStatus 0 false; DUnit; DUnit].
+Definition ex_c10_pa_evs : list event := [EvMain (ACall 0); EvPermit; EvTask; EvTask; EvTask; EvTask; EvTask; EvTask; EvStatus 0 true; EvReqPause false; EvPermit; EvTask; EvReqAbort (RsGiven 1); EvTask; EvTask; EvTask; EvTask; EvMainDone (ACall 0)].
+Definition ex_c10_pa_paus := [2]. Definition ex_c10_pa_stag := [0; 3]. Definition ex_c10_pa_rec := false.
+Definition ex_c10_pa_obs : list obs := [(OState Idle Running); (OTask WSleep0); (OPlanIn 0 (Send VNone)); (OMsg {| mid := (Some 0); mcmd := CStage; mobj := (Some 0); mrun := 0 |}); (ODev 0 MStage); (OResp (RVal (VDevs [0]))); (OTask WSleep0); (OPlanIn 0 (Send (VDevs [0]))); (OMsg {| mid := (Some 1); mcmd := COpenRun; mobj := None; mrun := 0 |}); (ODoc (DStart 0)); (OResp (RVal (VUid 0))); (OTask WSleep0); (OPlanIn 0 (Send (VUid 0))); (OMsg {| mid := (Some 2); mcmd := CCheckpoint; mobj := None; mrun := 0 |}); (OResp (RVal VNone)); (OTask WSleep0); (OPlanIn 0 (Send VNone)); (OMsg {| mid := (Some 3); mcmd := CClearCheckpoint; mobj := None; mrun := 0 |}); (OResp (RVal VNone)); (OTask WSleep0); (OPlanIn 0 (Send VNone)); (OMsg {| mid := (Some 4); mcmd := (CSet 1); mobj := (Some 1); mrun := 0 |}); (ODev 1 MSet); (OResp (RVal (VStatus 0))); (OTask WSleep0); (OState Running Pausing); (OReq true); (OState Pausing Aborting); (OPlanIn 0 (Throw EFailedPause)); (OMsg {| mid := (Some 5); mcmd := CNull; mobj := None; mrun := 0 |}); (OResp (RVal VNone)); (OTask WSleep0); (OReq false); (OPlanIn 0 (Send VNone)); (OMsg {| mid := (Some 6); mcmd := (CCloseRun None RsEmpty); mobj := None; mrun := 0 |}); (ODoc (DStop 0 XSuccess RsEmpty [])); (OResp (RVal (VUid 0))); (OTask WSleep0); (OPlanIn 0 (Send (VUid 0))); (OMsg {| mid := (Some 7); mcmd := CUnstage; mobj := (Some 0); mrun := 0 |}); (ODev 0 MUnstage); (OResp (RVal (VDevs [0]))); (OTask WSleep0); (OPlanIn 0 (Send (VDevs [0]))); (OTask WSleep0); (ODev 1 MStop); (OState Aborting Idle); (OTask WReturn); (OOut OutInterrupted Idle false false)].
+
+(* the pause of ex_c10_pa lands after clear_checkpoint (index 9); an abort request follows during the cleanup *)
+Definition pa_evs1 := firstn 9 ex_c10_pa_evs.
+Definition pa_evs2 := [EvPermit; EvTask; EvReqAbort (RsGiven 1); EvTask; EvTask; EvTask; EvTask].
+Example c10_any_requests_nonvacuous :
+  check ex_c10_pa_tapes ex_c10_pa_ledger ex_c10_pa_paus ex_c10_pa_stag ex_c10_pa_rec ex_c10_pa_evs ex_c10_pa_obs = true /\
+  ex_c10_pa_evs = pa_evs1 ++ EvReqPause false :: pa_evs2 ++ [EvMainDone (ACall 0)] /\
+  let s1 := fst (wrun ex_c10_pa_tapes ex_c10_pa_ledger (winit ex_c10_pa_paus ex_c10_pa_stag ex_c10_pa_rec) pa_evs1) in
+  let o1 := snd (wrun ex_c10_pa_tapes ex_c10_pa_ledger (winit ex_c10_pa_paus ex_c10_pa_stag ex_c10_pa_rec) pa_evs1) in
+  let s3 := fst (wrun ex_c10_pa_tapes ex_c10_pa_ledger s1 (EvReqPause false :: pa_evs2)) in
+  let o := snd (wrun ex_c10_pa_tapes ex_c10_pa_ledger s1 (EvReqPause false :: pa_evs2)) in
+  state TP nat s1 = Running /\ cache TP nat s1 = None /\ forallb ok_ev pa_evs2 = true /\ no_bad (o1 ++ o) = true /\
+  (exists r, pc TP nat s3 = PcDone r) /\
+  never_paused_b o = true /\ state TP nat s3 = Idle /\ bundlers TP nat s3 = [] /\ interrupted TP nat s3 = true.
+Proof. vm_compute. repeat split. eexists; reflexivity. Qed.
+
 (* ---- [C10_full] (Props/C10.v) as first stated is false: it lets the call that ends be ANY main-thread call; for
    `EvMainDone AAbort` the model reports the request's own result (the run uids), not an interruption.  The recorded
    run ex_nockpt of Proofs/RE_CtlExamples.v, ended by that event *)
